@@ -1,5 +1,5 @@
 """C19 Default-constructed packets hold the declared defaults."""
-import os, itertools, json
+import os, sys, itertools, json
 from common import *
 import decl, gen, pktcases, pktprops
 
@@ -224,6 +224,19 @@ def run(tier, seed, rng):
                                  classes=pktprops.class_source(groups, gid), cls=decl.cname(c), keywords=decl.py_value(('pkt', c, kw)),
                                  observed=d['outcome'], required=want))
         dist['pack_compared'] += 1
+        # "pack() of the result is the encoding of those values": against an encoder written from the declaration alone (declarations
+        # without positioning), fed with the values the constructed packet holds
+        if 'ok' in d['outcome'] and isinstance(p1['outcome'].get('ok'), str):
+            try:
+                import importlib; _c02 = importlib.import_module("props.C02")
+                ref = _c02.reference_encoding(table, pktprops.uncanon(d['outcome']['ok']), sys.byteorder == 'big')
+            except Exception:
+                ref = None
+            if ref is not None:
+                dist['pack_vs_reference'] = dist.get('pack_vs_reference', 0) + 1
+                if bytes.fromhex(p1['outcome']['ok']) != ref:
+                    failures.append(dict(kind='oracle', sig='defaults-pack-reference', what=f"pack() of a constructed packet is {p1['outcome']['ok']}, the encoding of the values it holds is {ref.hex()}",
+                                         classes=pktprops.class_source(groups, gid), cls=decl.cname(c), keywords=decl.py_value(('pkt', c, kw)), observed=p1['outcome'], required=ref.hex()))
         if p1['outcome'] != p2['outcome'] and not ('err' in p1['outcome'] and 'err' in p2['outcome']):
             failures.append(dict(kind='oracle', sig='defaults-pack', what='pack() of a default-constructed packet is not the encoding of its declared defaults',
                                  classes=pktprops.class_source(groups, gid), cls=decl.cname(c), keywords=decl.py_value(('pkt', c, kw)),
